@@ -1,6 +1,6 @@
 """Library map: how calls into std/boost entities are rendered on the C models of /verif/models (DESIGN.md 3.2)."""
 import re
-from cxxtypes import Unsupported, parse, strip_ref, peel, ident, T, SEQS, SMART_PTRS
+from cxxtypes import Unsupported, parse, strip_ref, peel, ident, T, SEQS, SMART_PTRS, SEQ_ADAPTORS
 from emit import skip, qt, TRANSPARENT, contains
 
 BUILTIN_OPS = {"==", "!=", "<", ">", "<=", ">=", "+", "-", "*", "/", "%", "=", "+=", "-=", "*=", "/=", "&", "|",
@@ -254,6 +254,12 @@ class LibMap:
         else:
             pointee = ct
         if pointee.startswith("struct vf_seq_"):
+            rt = strip_ref(em.tm.resolve(bt))
+            if arrow and rt.kind == "ptr":
+                rt = strip_ref(em.tm.resolve(rt.to))
+            if rt.kind == "named" and rt.last in SEQ_ADAPTORS:
+                # std::stack<T>: push/pop/top act on the back of the underlying sequence
+                name = SEQ_ADAPTORS[rt.last].get(name, name)
             return self.seq_call(em, n, pointee[len("struct vf_seq_"):], self.obj_ptr(em, base, arrow), name, args)
         if pointee == "struct vf_std_mutex" and name in ("lock", "unlock") and not args:
             # std::mutex of the host program (real threads are outside the sequential model, DESIGN 1): no-op, reported
@@ -330,10 +336,19 @@ class LibMap:
             if inner_t is not None and inner_t.kind == "named" and inner_t.last in SMART_PTRS:
                 o = "(*%s)" % em.paren(em.E(base))
                 return o if name == "get" else "(%s != 0)" % o
+            if inner_t is not None and inner_t.kind == "named" and inner_t.last == "reference_wrapper" and name == "get":
+                # opt->get() on std::optional<std::reference_wrapper<T>>: the wrapper is the T* it holds, get() the T lvalue
+                return "(**%s)" % em.paren(em.E(base))
         # smart pointers / atomics on a non-arrow base whose mapped type is scalar
         if not arrow and is_scalar(ct):
             o = em.E(base)
             if name == "get":
+                try:
+                    rwt = strip_ref(em.tm.resolve(bt))
+                except Unsupported:
+                    rwt = None
+                if rwt is not None and rwt.kind == "named" and rwt.last == "reference_wrapper":
+                    return "(*%s)" % em.paren(o)  # std::reference_wrapper<T>::get(): the T lvalue behind the held T*
                 return o
             if name == "operator bool":
                 return "(%s != 0)" % em.paren(o)
